@@ -43,8 +43,10 @@ def method_overrides(fn):
     return over
 
 
-def analyse(ck, prog, fixture=False):
+def analyse(ck, prog, fixture=False, use_base=False, tag=''):
     base, cls, family = most_derived(prog)
+    if use_base:
+        cls = base
     eng = Engine(prog, cls)
     methods = public_methods(cls)
     ck.saw('classes', [c.module.name + '.' + c.name for c in family])
@@ -64,7 +66,8 @@ def analyse(ck, prog, fixture=False):
                     node.func.attr == 'write':
                 direct_sites += 1
     ck.saw('request_methods', requests)
-    ck.floor('request methods', len(requests), 3 if fixture else 30)
+    ck.floor('request methods%s' % (' (base class)' if use_base else ''), len(requests),
+             3 if fixture else (10 if use_base else 30))
     ck.floor('direct port.write sites', direct_sites, 1 if fixture else 6)
 
     for name, fn in sorted(methods.items()):
@@ -233,6 +236,43 @@ def side_doors(ck, prog, family):
     ck.floor('stores to .err/.port', n_sites, 3)
 
 
+def cross_check_inlined(ck, prog, requests):
+    """Thorough tier: the blocked-state rules once more with the primitives INLINED instead of
+    summarised (every path through command/query/query_statusbyte explored inside each caller):
+    an independent route to D2/D3 that does not rely on the summary abstraction."""
+    base, cls, family = most_derived(prog)
+    eng = Engine(prog, cls, summarised=())
+    methods = public_methods(cls)
+    n = 0
+    for name, fn in sorted(methods.items()):
+        if name in ('__init__', 'connect'):
+            continue
+        for ts in BLOCKED_TS:
+            outs = eng.run(name, ts, overrides=method_overrides(fn), summarised=())
+            n += len(outs)
+            w = None
+            bad = None
+            for o in outs:
+                ws = port_writes(o.state.effects)
+                if ws:
+                    w = ws[0]
+                if name in requests:
+                    if o.kind == 'raise':
+                        bad = 'raises %s' % o.value
+                    elif classify_ret(o.value) not in FAILURE_CLASSES:
+                        bad = 'returns a %s value' % classify_ret(o.value)
+            ck.ob('C04-D2-blocked-silent', '%s from %s [primitives inlined]' % (fn.qualname, ts.name),
+                  w is None, '%s transmits (line %s) in state %s (full-path exploration)'
+                  % (fn.qualname, w.line if w else '', ts.name), fn.loc(),
+                  key='%s::transmits-when-blocked' % fn.qualname)
+            if name in requests:
+                ck.ob('C04-D3-failure-value', '%s from %s [primitives inlined]' % (fn.qualname, ts.name),
+                      bad is None, '%s in state %s %s (full-path exploration)'
+                      % (fn.qualname, ts.name, bad), fn.loc(),
+                      key='%s::no-failure-value' % fn.qualname)
+    ck.extra['inlined_cross_check_paths'] = n
+
+
 def run(ck, prog, tier):
     ck.explanation = (
         'Typestate abstract interpretation of every method of the EBB3 class family (parsed '
@@ -249,6 +289,10 @@ def run(ck, prog, tier):
     requests = analyse(ck, prog)
     for r in requests[:12]:
         ck.sample({'request_method': r})
+    if tier == 'thorough':
+        # the base class on its own (what a user of ebb3_serial.EBB3 gets), and the inlined route
+        analyse(ck, prog, use_base=True)
+        cross_check_inlined(ck, prog, requests)
     # canary: the rules must fire on the known-bad fixture
     fx = os.path.join(VERIF, 'fixtures', 'c04_bad')
     ck2 = Check('C04', tier, fx, quiet=True)
